@@ -300,15 +300,11 @@ pub fn minimise<S: Scenario>(
             }
             execs += 1;
             let out = sc.execute(&c);
+            // keep exactly the same violation class: (property, rule, signature)
             if let Some(v) = out
                 .violations
                 .iter()
                 .find(|v| v.property == target.property && v.rule == target.rule && v.signature == target.signature)
-                .or_else(|| {
-                    out.violations
-                        .iter()
-                        .find(|v| v.property == target.property && v.rule == target.rule)
-                })
             {
                 // keep the same violation class (property, rule); prefer identical signature
                 best = c;
@@ -326,7 +322,7 @@ pub fn minimise<S: Scenario>(
         if let Some(v) = out
             .violations
             .iter()
-            .find(|v| v.property == target.property && v.rule == target.rule)
+            .find(|v| v.property == target.property && v.rule == target.rule && v.signature == target.signature)
         {
             best_v = v.clone();
         }
@@ -467,6 +463,7 @@ pub struct Verdict {
 pub fn settle<S: Scenario>(sc: &S, cfg: &RunCfg, stats: &BatchStats, known: &KnownFindings, verdict: &mut Verdict) {
     let mut processed = 0;
     let mut known_printed: HashMap<String, bool> = HashMap::new();
+    let mut reported: HashSet<String> = HashSet::new();
     for (_key, (run_index, case_json, v, _digest)) in stats.groups.iter() {
         // quick classification first so that known findings do not cost minimisation time
         if let Some(k) = known.findings.iter().find(|k| k.matches(v)) {
@@ -508,6 +505,9 @@ pub fn settle<S: Scenario>(sc: &S, cfg: &RunCfg, stats: &BatchStats, known: &Kno
             let _ = k;
             finish_violation(rf, verdict);
             continue;
+        }
+        if !reported.insert(min_v.group_key()) {
+            continue; // minimised to a violation that was already reported
         }
         let rf = ReplayFile {
             property: min_v.property.clone(),
